@@ -294,18 +294,40 @@ func runC19(c *Ctx) int {
 		c.Inconclusive("bbolt CLI binary not built (VCHECK_BBOLT)")
 	}
 	if c.Replay != "" {
-		a := c19Args{Prog: c.Replay, Dir: c.Tmp, Bbolt: bin, Seed: c.Seed}
-		r := c19One(&a)
-		for _, m := range r.Missed {
-			fmt.Printf("VIOLATION property=C19 replay=%s\n  [missed:%s:%s] %s: %s\n", c.Replay, m.Class, m.Checker, m.Target, m.Detail)
+		// a replay goes through the same child-process protocol as the sweep (a checking process may die on a mutant)
+		start, bad := 0, 0
+		for attempt := 0; attempt < 400; attempt++ {
+			res := c.RunChild("c19", c19Args{Prog: c.Replay, Dir: c.Tmp, Bbolt: bin, Seed: c.Seed, StartAt: start}, 40*time.Minute)
+			for _, l := range res.Lines {
+				var r c19Res
+				if json.Unmarshal([]byte(l), &r) != nil {
+					continue
+				}
+				for _, m := range r.Missed {
+					bad++
+					fmt.Printf("VIOLATION property=C19 replay=%s\n  [missed:%s:%s] %s: %s\n", c.Replay, m.Class, m.Checker, m.Target, m.Detail)
+				}
+				for _, g := range r.GoodBad {
+					bad++
+					fmt.Printf("VIOLATION property=C19 replay=%s\n  [false-report] %s\n", c.Replay, g)
+				}
+				fmt.Println("replay:", r.Skipped, r.Evaluated)
+			}
+			if res.ExitErr == nil && len(res.Unfinished()) == 0 {
+				break
+			}
+			var n int
+			var kind, chk string
+			if k, _ := fmt.Sscanf(res.LastLine, "%s %d %s", &kind, &n, &chk); k < 3 {
+				fmt.Println("replay: child died outside a mutant:", tail(res.Stderr, 300))
+				return 2
+			}
+			fmt.Printf("replay: the checking process died on mutant %d (%s)\n", n, res.LastLine)
+			start = n + 1
 		}
-		for _, g := range r.GoodBad {
-			fmt.Printf("VIOLATION property=C19 replay=%s\n  [false-report] %s\n", c.Replay, g)
-		}
-		if len(r.Missed)+len(r.GoodBad) > 0 {
+		if bad > 0 {
 			return 1
 		}
-		fmt.Println("replay: no violation", r.Skipped, r.Evaluated)
 		return 0
 	}
 	nSweep := c.Pick(12, 96)
